@@ -217,6 +217,15 @@ Fixpoint clean (T : idef) : bool :=
 
 Definition clean_defs (D : defs) : bool := forallb (fun e => clean (snd e)) D.
 
+(* the fuel covers the tree: every path of components and references from T ends within f steps *)
+Fixpoint enough (f : nat) (D : defs) (T : idef) {struct f} : bool :=
+  match f with O => false | S f' =>
+  match T with
+  | ISimple _ _ | ICollSimple _ _ => true
+  | IRef n _ | ICollRef n _ => match dlookup n D with Some T' => enough f' D T' | None => true end
+  | IComp fs _ | ICollComp fs _ => forallb (fun e => enough f' D (snd e)) fs
+  end end.
+
 (* ============================================================================================
    ImplModel: item_definition.rs, one function per copy-pasted closure
    ============================================================================================ *)
